@@ -166,7 +166,7 @@ func corrRender(seed uint64, n int, tier string, out string, replay string) {
 		execOrderCase(m, rep, r, seed, i)
 	}
 	renderProbes(rep, seed)
-	knownOrderFindings(rep, tmp, seed)
+	knownOrderFindings(m, rep, tmp, seed)
 	rep.Write(out, m)
 }
 
@@ -307,7 +307,7 @@ func renderProbes(rep *Report, seed uint64) {
 }
 
 // knownOrderFindings: the three known dependences on things outside (chart, values, options).
-func knownOrderFindings(rep *Report, tmp string, seed uint64) {
+func knownOrderFindings(m *Model, rep *Report, tmp string, seed uint64) {
 	// 1. sub-notes
 	p := &chart.Chart{Metadata: &chart.Metadata{APIVersion: "v2", Name: "p", Version: "0.1.0"}, Templates: []*chart.File{{Name: "templates/NOTES.txt", Data: []byte("PARENT")}}}
 	for _, n := range []string{"s1", "s2", "s3"} {
@@ -325,6 +325,16 @@ func knownOrderFindings(rep *Report, tmp string, seed uint64) {
 		}
 		sort.Strings(l)
 		rep.Issue(Issue{Kind: "monitor", Fingerprint: "C05:subnotes-order", What: fmt.Sprintf("with sub-notes on, %d different notes texts in 40 renders of the same chart", len(seen)), Impl: l, Seed: seed})
+	} else {
+		// and the one text is the model's: the notes files in path order
+		mr := m.Query(map[string]any{"op": "notes", "subNotes": true, "mainNotes": "p/templates/NOTES.txt", "files": []any{
+			[]any{"p/templates/NOTES.txt", "PARENT"}, []any{"p/charts/s2/templates/NOTES.txt", "SUB-s2"},
+			[]any{"p/charts/s1/templates/NOTES.txt", "SUB-s1"}, []any{"p/charts/s3/templates/NOTES.txt", "SUB-s3"}}})
+		for k := range seen {
+			if want, _ := mr["notes"].(string); want != k {
+				rep.Issue(Issue{Kind: "disagreement", Fingerprint: "C05:model:subnotes", What: "the notes text with sub-notes on differs from the model (files in path order)", Model: want, Impl: k, Seed: seed})
+			}
+		}
 	}
 	// 2. AsConfig with duplicate base names
 	c := &chart.Chart{Metadata: &chart.Metadata{APIVersion: "v2", Name: "p", Version: "0.1.0"},
